@@ -566,7 +566,8 @@ func (G *genuine) dishonest(v Variant, pub []*big.Int) (plonk.Proof, []*big.Int,
 			set("L", r, new(big.Int).Mod(new(big.Int).Add(cols["L"][r], delta), q))
 			note = fmt.Sprintf("public row %d", r)
 		}
-		rep, err := sys.CheckSparse(G.fullVals, &cseval.Solution{L: cols["L"], R: cols["R"], O: cols["O"]})
+		// only the PUBLIC inputs are fixed by the statement: a prover may pick any secret values
+		rep, err := sys.CheckSparse(G.fullVals[:np], &cseval.Solution{L: cols["L"], R: cols["R"], O: cols["O"]})
 		if err != nil {
 			skip = "check failed: " + err.Error()
 			return
